@@ -173,7 +173,7 @@ impl Check for Thresholds {
                 if got != exp { return Err(violation("config.zero_or_unreachable_refused", kind, i, format!("{s:?}: real {got} model {exp}; model {m:?} signers {}", cfg.signers))); }
                 if !got && w.storage_digest(&[&pol]) != before { return Err(violation("fail.no_trace", kind, i, format!("{s:?}"))); }
             }
-            st.state(&(cfg.weighted, m.installed, m.t.min(20)));
+            st.state(&(cfg.weighted, m.installed, m.t.min(20), m.w.values().filter(|x| **x > 0).count(), std::mem::discriminant(s)));
         }
         Ok(())
     }
